@@ -91,6 +91,9 @@ def _annotate_files(objs):
 class Ast:
     def __init__(self, workdir=None):
         self.workdir = workdir or tempfile.mkdtemp(prefix="glverif_ast_")
+        if not workdir:
+            import atexit, shutil
+            atexit.register(shutil.rmtree, self.workdir, True)
         tu = os.path.join(self.workdir, "tu.cpp")
         with open(tu, "w") as f:
             f.write(TU_TEXT)
